@@ -484,6 +484,16 @@ def run(case):
     viol = []
     want_ez = {tuple(x) for x in case['expect_ez']}
     want_ch = {tuple(x) for x in case['expect_chiral']}
+    if (len(case['single']) + len(case['frag_string'])) % 3 == 0:
+        # history: the same molecule and the same cuts WITHOUT their slash marks (same fragment names, same atoms) are
+        # resolved first in this process; what they left behind must not decide about the marked strings
+        for twin in (case['single'], case['base_string'] + '.' + case['frag_string']):
+            try:
+                MoleculeResolver.from_string(twin.replace('/', '').replace('\\', '')).resolve()
+                contracts.STATS['unmarked_twin_resolved_first'] += 1
+            except Exception:
+                pass
+        contracts.clear()
     # uncut molecule
     try:
         cg, aa = MoleculeResolver.from_string(case['single']).resolve()
